@@ -550,6 +550,22 @@ def method_of(ex, obj, p, name):
                 else:
                     yield st, Space(concrete=list(d.values()))
             return mk(f)
+        if name == "setdefault":
+            def f(ex, st, args, kwargs, node):
+                k = ex.hashkey(args[0])
+                d = st.heap[obj.oid].items
+                for kk, v in d.items():
+                    if ex.key_same(kk, k):
+                        yield st, v
+                        return
+                d[k] = args[1] if len(args) > 1 else None
+                yield st, d[k]
+            return mk(f)
+        if name == "clear":
+            def f(ex, st, args, kwargs, node):
+                st.heap[obj.oid].items.clear()
+                yield st, None
+            return mk(f)
         if name == "update":
             def f(ex, st, args, kwargs, node):
                 d = st.heap[obj.oid].items
@@ -667,6 +683,23 @@ def method_of(ex, obj, p, name):
                     yield st, mkstr([q.replace(a, b) if isinstance(q, str) else q for q in p.parts])
                     return
                 raise Unsupported("replace on template")
+            return mk(f)
+        if isinstance(p, str) and name in ("lower", "capitalize", "title", "strip", "lstrip", "rstrip", "endswith", "isdigit", "isupper",
+                                            "islower", "casefold", "removeprefix", "removesuffix", "count", "find", "zfill"):
+            def f(ex, st, args, kwargs, node):
+                # a concrete string with concrete arguments: python's own method
+                if not all(isinstance(a, (str, int, tuple)) and not isinstance(a, bool) for a in args):
+                    a2 = []
+                    for a in args:
+                        if isinstance(a, TupleV) and all(isinstance(x, str) for x in a.items):
+                            a2.append(tuple(a.items))
+                        elif isinstance(a, (str, int)):
+                            a2.append(a)
+                        else:
+                            raise Unsupported(f"str.{name} with a symbolic argument")
+                    yield st, getattr(p, name)(*a2)
+                    return
+                yield st, getattr(p, name)(*args)
             return mk(f)
         if name == "format":
             def f(ex, st, args, kwargs, node):
